@@ -21,6 +21,7 @@ Call(n, args) == [k |-> "c", name |-> n, args |-> args]
 Pos(v) == [named |-> FALSE, key |-> <<>>, val |-> v]
 Named(key, v) == [named |-> TRUE, key |-> <<Txt(key)>>, val |-> v]
 If(c, y, n) == [k |-> "if", c |-> c, y |-> y, n |-> n]
+IfEq(a, b, y, n) == [k |-> "eq", a |-> a, b |-> b, y |-> y, n |-> n]
 Plain(c) == <<[w |-> "plain", c |-> c]>>
 
 T1Show == Plain(<<Txt(<<"(">>), Par(<<"1">>), Txt(<<",">>), ParD(<<"x">>, <<Txt(<<"d">>)>>), Txt(<<")">>)>>)
@@ -77,7 +78,9 @@ Expected(c) ==
    pargs |-> IF c.depth > 0 THEN W1Frame(c).b ELSE <<>>,
    pre |-> Expand(c.frag, Lib, {}),
    et |-> Expand(<<Call("T1", <<Named(<<"1">>, <<Txt(c.s1)>>), Named(<<"x">>, <<Txt(c.s2)>>)>>)>>, Lib, {}),
-   pf |-> Expand(<<If(<<Txt(c.s1)>>, <<Txt(c.s2)>>, <<Txt(<<"n">>)>>)>>, Lib, {})]
+   pf |-> Expand(<<If(<<Txt(c.s1)>>, <<Txt(c.s2)>>, <<Txt(<<"n">>)>>)>>, Lib, {}),
+   \* a call with an EMPTY positional argument in the middle: {{#ifeq:s1||same|diff}} (arguments keep their positions)
+   pf2 |-> Expand(<<IfEq(<<Txt(c.s1)>>, <<>>, <<Txt(<<"same">>)>>, <<Txt(<<"diff">>)>>)>>, Lib, {})]
 
 \* laws: the frame construction is independent of the wrapper depth (arguments are
 \* forwarded verbatim / trimmed exactly once)
